@@ -55,6 +55,15 @@ pub fn extreme_cells() -> Vec<Cell> {
             v.push(Cell::newi(Fam::Binomial, &[n], &[p]));
         }
     }
+    // BINV / Poisson-limit side with huge n: n p in {0.5, 2, 9.5} for n = 2^50 .. 2^63 (p just above and below
+    // 2^-54, where 1 - p starts to round to 1)
+    for e in 50..=63u32 {
+        for &np in &[0.5, 2.0, 9.5] {
+            let n = if e == 63 { 1u64 << 63 } else { (1u64 << e) + 12345 };
+            v.push(Cell::newi(Fam::Binomial, &[n], &[np / n as f64]));
+            v.push(Cell::newi(Fam::Binomial, &[n], &[1.0 - np / n as f64]));
+        }
+    }
     for &l in &[1.844e19, 1.8e19, 1e19, 1e18, 1e16] {
         v.push(Cell::new(Fam::Poisson, Ft::F64, &[l]));
     }
@@ -134,6 +143,19 @@ struct Slot {
     current: Mutex<Option<(String, Value, Instant)>>,
     tid: AtomicU64,
     stuck: AtomicBool,
+}
+
+/// "a few seconds of CPU" (C05 statement): a single call may not use more CPU time than this
+pub const CPU_SECONDS_PER_CALL: f64 = 3.0;
+
+/// CPU time consumed by the calling thread, in seconds
+pub fn thread_cpu_now() -> f64 {
+    let mut ts = libc::timespec { tv_sec: 0, tv_nsec: 0 };
+    // SAFETY: plain syscall wrapper writing into a local timespec
+    unsafe {
+        libc::clock_gettime(libc::CLOCK_THREAD_CPUTIME_ID, &mut ts);
+    }
+    ts.tv_sec as f64 + ts.tv_nsec as f64 * 1e-9
 }
 
 fn thread_cpu_secs(tid: u64) -> Option<f64> {
@@ -302,8 +324,11 @@ fn worker_random(ctx: &Ctx, slot: &Slot, cell: &Cell, m: u64) {
     let mut maxw = 0u64;
     let mut calls = 0u64;
     let mut over = None;
+    let mut slow: Option<(u64, f64)> = None;
+    let t_cell = thread_cpu_now();
     for i in 0..m {
         rng.begin_call();
+        let t0 = if i % 16 == 0 { thread_cpu_now() } else { 0.0 };
         match catch(|| s.sample_v(&mut rng)) {
             Ok(_) => {}
             Err(msg) => {
@@ -319,6 +344,19 @@ fn worker_random(ctx: &Ctx, slot: &Slot, cell: &Cell, m: u64) {
         total += rng.call_words;
         maxw = maxw.max(rng.call_words);
         calls += 1;
+        if i % 16 == 0 {
+            // CPU time of this thread (not wall time: the machine may be oversubscribed)
+            let t1 = thread_cpu_now();
+            if t1 - t0 > CPU_SECONDS_PER_CALL && slow.is_none() {
+                slow = Some((i, t1 - t0));
+                break;
+            }
+            // a cell whose calls are legitimately slow stops early (counted); single calls are judged above
+            if t1 - t_cell > 30.0 {
+                ctx.class("cells_stopped_after_30s_cpu", 1);
+                break;
+            }
+        }
         // time guard: a cell whose calls are legitimately slow stops early (counted), the monitor handles real hangs
         if i % 1024 == 0 {
             set_current(slot, format!("{} random stream seed {} call {}", cell.key(), seed, i), json!({"kind": "term", "cell": cell, "seed": seed, "trigger": "random", "calls": m}));
@@ -341,6 +379,18 @@ fn worker_random(ctx: &Ctx, slot: &Slot, cell: &Cell, m: u64) {
             symptom: "word_budget".into(),
             trigger: "random".into(),
             what: format!("{}: call {} of a random stream (seed {}) drew more than 1e5 words", cell.key(), i, seed),
+            case: json!({"kind": "term", "cell": cell, "seed": seed, "trigger": "random", "calls": i + 1}),
+        });
+        return;
+    }
+    if let Some((i, secs)) = slow {
+        ctx.violation(Violation {
+            property: ctx.property.clone(),
+            family: cell.fam.name(),
+            float: ft_name(cell),
+            symptom: "cpu_time".into(),
+            trigger: "random".into(),
+            what: format!("{}: call {} of a random stream (seed {}) took {:.1} s of CPU time ({} words): more than 'a few seconds' (limit {} s)", cell.key(), i, seed, secs, rng.call_words, CPU_SECONDS_PER_CALL),
             case: json!({"kind": "term", "cell": cell, "seed": seed, "trigger": "random", "calls": i + 1}),
         });
         return;
@@ -380,6 +430,7 @@ fn worker_adversarial(ctx: &Ctx, slot: &Slot, cell: &Cell, lat: &[u64], thorough
     let mut ev = 0u64;
     let mut nt = 0u64;
     let mut budget_hits = 0u32;
+    let mut slow_hits = 0u32;
     'seeds: for sd in 0..seeds {
         let seed = hseed(&[ctx.seed, cell.hash64(), sd, 0xAD5]);
         for pos in 0..8u64 {
@@ -398,10 +449,35 @@ fn worker_adversarial(ctx: &Ctx, slot: &Slot, cell: &Cell, lat: &[u64], thorough
                     rng.begin_call();
                     // every call is announced to the monitor lazily (every 64 calls) — a hang inside any of them is
                     // attributed to the announced neighbourhood and re-identified exactly by the replay below
+                    let wall0 = Instant::now();
                     let r = catch(|| s.sample_v(&mut rng));
                     ev += 1;
                     if pos < rng.call_words {
                         nt += 1;
+                    }
+                    if wall0.elapsed().as_secs_f64() > CPU_SECONDS_PER_CALL && slow_hits < 2 {
+                        // slow by the wall clock: repeat the identical call and measure this thread's CPU time
+                        let mut rng2 = crate::streams::make_rng(&case);
+                        rng2.begin_call();
+                        let c0 = thread_cpu_now();
+                        let _ = catch(|| s.sample_v(&mut rng2));
+                        let cpu = thread_cpu_now() - c0;
+                        if cpu > CPU_SECONDS_PER_CALL {
+                            slow_hits += 1;
+                            ctx.violation(Violation {
+                                property: ctx.property.clone(),
+                                family: cell.fam.name(),
+                                float: ft_name(cell),
+                                symptom: "cpu_time".into(),
+                                trigger: word_class(w).to_string(),
+                                what: format!("{}: one call with word {:#x} at position {} took {:.1} s of CPU time ({} words): more than 'a few seconds' (limit {} s)", cell.key(), w, pos, cpu, rng2.call_words, CPU_SECONDS_PER_CALL),
+                                case: json!({"kind": "stream", "stream": case, "cell": cell}),
+                            });
+                            if slow_hits >= 2 {
+                                ctx.class("cells_left_after_2_cpu_time_violations", 1);
+                                break 'seeds;
+                            }
+                        }
                     }
                     if let Err(msg) = r {
                         if msg.starts_with("WORD_BUDGET") {
@@ -447,6 +523,16 @@ pub fn replay(ctx: &Ctx, case: &Value) -> bool {
             if let Err(m) = r {
                 if m.starts_with("WORD_BUDGET") {
                     ctx.violation(Violation { property: ctx.property.clone(), family: sc.cell.fam.name(), float: ft_name(&sc.cell), symptom: "word_budget".into(), trigger: "replay".into(), what: format!("{}: more than 1e5 words", sc.cell.key()), case: case.clone() });
+                }
+            }
+            if t0.elapsed().as_secs_f64() > CPU_SECONDS_PER_CALL && t0.elapsed().as_secs_f64() <= 20.0 {
+                let mut rng2 = crate::streams::make_rng(&sc);
+                rng2.begin_call();
+                let c0 = thread_cpu_now();
+                let _ = catch(|| s.sample_v(&mut rng2));
+                let cpu = thread_cpu_now() - c0;
+                if cpu > CPU_SECONDS_PER_CALL {
+                    ctx.violation(Violation { property: ctx.property.clone(), family: sc.cell.fam.name(), float: ft_name(&sc.cell), symptom: "cpu_time".into(), trigger: "replay".into(), what: format!("{}: call took {:.1} s of CPU time", sc.cell.key(), cpu), case: case.clone() });
                 }
             }
             if t0.elapsed().as_secs_f64() > 20.0 {
